@@ -123,12 +123,20 @@ class VdirStore(Store):
             except NotImplementedError:
                 # This file type doesn't support UIDs
                 uid = None
+            if name in self._fname_to_uid:
+                # The file changed; release the UID it used to hold.
+                old_uid = self._fname_to_uid[name][1]
+                if (
+                    old_uid is not None
+                    and self._uid_to_fname.get(old_uid, (None, None))[0] == name
+                ):
+                    del self._uid_to_fname[old_uid]
             self._fname_to_uid[name] = (etag, uid)
             if uid is not None:
                 self._uid_to_fname[uid] = (name, etag)
         for name in removed:
             (unused_etag, uid) = self._fname_to_uid[name]
-            if uid is not None:
+            if uid is not None and self._uid_to_fname.get(uid, (None, None))[0] == name:
                 del self._uid_to_fname[uid]
             del self._fname_to_uid[name]
 
